@@ -775,3 +775,66 @@ Definition modelled_fmts : list (string * string * list string) :=
    ("WriteSingleRegisterResponse", "decode", [">HH"]);
    ("bit_write_message", "_turn_coil_on", [">H"]);
    ("bit_write_message", "_turn_coil_off", [">H"])].
+
+(* the constructors (parameter lists with defaults, statements of every __init__) the expected-instance
+   model of the harness (props/lib_pdu.py expected_instance) was written against; Props/C01.v proves
+   this equals GenPdu.ctor_sigs, so an edited constructor breaks a proof *)
+Definition modelled_ctors : list (string * string * list string) :=
+  [("DiagnosticStatusRequest", "self, **kwargs", ["ModbusRequest.__init__(self, **kwargs)"; "self.message = None"]);
+   ("DiagnosticStatusResponse", "self, **kwargs", ["ModbusResponse.__init__(self, **kwargs)"; "self.message = None"]);
+   ("DiagnosticStatusSimpleRequest", "self, data=0, **kwargs", ["DiagnosticStatusRequest.__init__(self, **kwargs)"; "self.message = data"]);
+   ("DiagnosticStatusSimpleResponse", "self, data=0, **kwargs", ["DiagnosticStatusResponse.__init__(self, **kwargs)"; "self.message = data"]);
+   ("ExceptionResponse", "self, function_code, exception_code=None, **kwargs", ["ModbusResponse.__init__(self, **kwargs)"; "self.original_code = function_code"; "self.function_code = function_code | self.ExceptionOffset"; "self.exception_code = exception_code"]);
+   ("FileRecord", "self, **kwargs", ["self.reference_type = kwargs.get('reference_type', 6)"; "self.file_number = kwargs.get('file_number', 0)"; "self.record_number = kwargs.get('record_number', 0)"; "self.record_data = kwargs.get('record_data', '')"; "self.record_length = kwargs.get('record_length', len(self.record_data) // 2)"; "self.response_length = kwargs.get('response_length', len(self.record_data) + 1)"]);
+   ("ForceListenOnlyModeResponse", "self, **kwargs", ["DiagnosticStatusResponse.__init__(self, **kwargs)"; "self.message = []"]);
+   ("GetClearModbusPlusRequest", "self, **kwargs", ["super(GetClearModbusPlusRequest, self).__init__(**kwargs)"]);
+   ("GetCommEventCounterRequest", "self, **kwargs", ["ModbusRequest.__init__(self, **kwargs)"]);
+   ("GetCommEventCounterResponse", "self, count=0, **kwargs", ["ModbusResponse.__init__(self, **kwargs)"; "self.count = count"; "self.status = True"]);
+   ("GetCommEventLogRequest", "self, **kwargs", ["ModbusRequest.__init__(self, **kwargs)"]);
+   ("GetCommEventLogResponse", "self, **kwargs", ["ModbusResponse.__init__(self, **kwargs)"; "self.status = kwargs.get('status', True)"; "self.message_count = kwargs.get('message_count', 0)"; "self.event_count = kwargs.get('event_count', 0)"; "self.events = kwargs.get('events', [])"]);
+   ("IllegalFunctionRequest", "self, function_code, **kwargs", ["ModbusRequest.__init__(self, **kwargs)"; "self.function_code = function_code"]);
+   ("MaskWriteRegisterRequest", "self, address=0, and_mask=65535, or_mask=0, **kwargs", ["ModbusRequest.__init__(self, **kwargs)"; "self.address = address"; "self.and_mask = and_mask"; "self.or_mask = or_mask"]);
+   ("MaskWriteRegisterResponse", "self, address=0, and_mask=65535, or_mask=0, **kwargs", ["ModbusResponse.__init__(self, **kwargs)"; "self.address = address"; "self.and_mask = and_mask"; "self.or_mask = or_mask"]);
+   ("ModbusPDU", "self, **kwargs", ["self.transaction_id = kwargs.get('transaction', Defaults.TransactionId)"; "self.protocol_id = kwargs.get('protocol', Defaults.ProtocolId)"; "self.unit_id = kwargs.get('unit', Defaults.UnitId)"; "self.skip_encode = kwargs.get('skip_encode', False)"; "self.check = 0"]);
+   ("ModbusRequest", "self, **kwargs", ["ModbusPDU.__init__(self, **kwargs)"]);
+   ("ModbusResponse", "self, **kwargs", ["ModbusPDU.__init__(self, **kwargs)"]);
+   ("ReadBitsRequestBase", "self, address, count, **kwargs", ["ModbusRequest.__init__(self, **kwargs)"; "self.address = address"; "self.count = count"]);
+   ("ReadBitsResponseBase", "self, values, **kwargs", ["ModbusResponse.__init__(self, **kwargs)"; "self.bits = values or []"]);
+   ("ReadCoilsRequest", "self, address=None, count=None, **kwargs", ["ReadBitsRequestBase.__init__(self, address, count, **kwargs)"]);
+   ("ReadCoilsResponse", "self, values=None, **kwargs", ["ReadBitsResponseBase.__init__(self, values, **kwargs)"]);
+   ("ReadDeviceInformationRequest", "self, read_code=None, object_id=0, **kwargs", ["ModbusRequest.__init__(self, **kwargs)"; "self.read_code = read_code or DeviceInformation.Basic"; "self.object_id = object_id"]);
+   ("ReadDeviceInformationResponse", "self, read_code=None, information=None, **kwargs", ["ModbusResponse.__init__(self, **kwargs)"; "self.read_code = read_code or DeviceInformation.Basic"; "self.information = information or {}"; "self.number_of_objects = 0"; "self.conformity = 131"; "self.next_object_id = 0"; "self.more_follows = MoreData.Nothing"; "self.space_left = None"]);
+   ("ReadDiscreteInputsRequest", "self, address=None, count=None, **kwargs", ["ReadBitsRequestBase.__init__(self, address, count, **kwargs)"]);
+   ("ReadDiscreteInputsResponse", "self, values=None, **kwargs", ["ReadBitsResponseBase.__init__(self, values, **kwargs)"]);
+   ("ReadExceptionStatusRequest", "self, **kwargs", ["ModbusRequest.__init__(self, **kwargs)"]);
+   ("ReadExceptionStatusResponse", "self, status=0, **kwargs", ["ModbusResponse.__init__(self, **kwargs)"; "self.status = status"]);
+   ("ReadFifoQueueRequest", "self, address=0, **kwargs", ["ModbusRequest.__init__(self, **kwargs)"; "self.address = address"; "self.values = []"]);
+   ("ReadFifoQueueResponse", "self, values=None, **kwargs", ["ModbusResponse.__init__(self, **kwargs)"; "self.values = values or []"]);
+   ("ReadFileRecordRequest", "self, records=None, **kwargs", ["ModbusRequest.__init__(self, **kwargs)"; "self.records = records or []"]);
+   ("ReadFileRecordResponse", "self, records=None, **kwargs", ["ModbusResponse.__init__(self, **kwargs)"; "self.records = records or []"]);
+   ("ReadHoldingRegistersRequest", "self, address=None, count=None, **kwargs", ["ReadRegistersRequestBase.__init__(self, address, count, **kwargs)"]);
+   ("ReadHoldingRegistersResponse", "self, values=None, **kwargs", ["ReadRegistersResponseBase.__init__(self, values, **kwargs)"]);
+   ("ReadInputRegistersRequest", "self, address=None, count=None, **kwargs", ["ReadRegistersRequestBase.__init__(self, address, count, **kwargs)"]);
+   ("ReadInputRegistersResponse", "self, values=None, **kwargs", ["ReadRegistersResponseBase.__init__(self, values, **kwargs)"]);
+   ("ReadRegistersRequestBase", "self, address, count, **kwargs", ["ModbusRequest.__init__(self, **kwargs)"; "self.address = address"; "self.count = count"]);
+   ("ReadRegistersResponseBase", "self, values, **kwargs", ["ModbusResponse.__init__(self, **kwargs)"; "self.registers = values or []"]);
+   ("ReadWriteMultipleRegistersRequest", "self, **kwargs", ["ModbusRequest.__init__(self, **kwargs)"; "self.read_address = kwargs.get('read_address', 0)"; "self.read_count = kwargs.get('read_count', 0)"; "self.write_address = kwargs.get('write_address', 0)"; "self.write_registers = kwargs.get('write_registers', None)"; "if not hasattr(self.write_registers, '__iter__'): self.write_registers = [self.write_registers]"; "self.write_count = len(self.write_registers)"; "self.write_byte_count = self.write_count * 2"]);
+   ("ReadWriteMultipleRegistersResponse", "self, values=None, **kwargs", ["ModbusResponse.__init__(self, **kwargs)"; "self.registers = values or []"]);
+   ("ReportSlaveIdRequest", "self, **kwargs", ["ModbusRequest.__init__(self, **kwargs)"]);
+   ("ReportSlaveIdResponse", "self, identifier=b'\x00', status=True, **kwargs", ["ModbusResponse.__init__(self, **kwargs)"; "self.identifier = identifier"; "self.status = status"; "self.byte_count = None"]);
+   ("RestartCommunicationsOptionRequest", "self, toggle=False, **kwargs", ["DiagnosticStatusRequest.__init__(self, **kwargs)"; "if toggle: self.message = [ModbusStatus.On] else: self.message = [ModbusStatus.Off]"]);
+   ("RestartCommunicationsOptionResponse", "self, toggle=False, **kwargs", ["DiagnosticStatusResponse.__init__(self, **kwargs)"; "if toggle: self.message = [ModbusStatus.On] else: self.message = [ModbusStatus.Off]"]);
+   ("ReturnQueryDataRequest", "self, message=0, **kwargs", ["DiagnosticStatusRequest.__init__(self, **kwargs)"; "if isinstance(message, list): self.message = message else: self.message = [message]"]);
+   ("ReturnQueryDataResponse", "self, message=0, **kwargs", ["DiagnosticStatusResponse.__init__(self, **kwargs)"; "if isinstance(message, list): self.message = message else: self.message = [message]"]);
+   ("WriteFileRecordRequest", "self, records=None, **kwargs", ["ModbusRequest.__init__(self, **kwargs)"; "self.records = records or []"]);
+   ("WriteFileRecordResponse", "self, records=None, **kwargs", ["ModbusResponse.__init__(self, **kwargs)"; "self.records = records or []"]);
+   ("WriteMultipleCoilsRequest", "self, address=None, values=None, **kwargs", ["ModbusRequest.__init__(self, **kwargs)"; "self.address = address"; "if not values: values = [] elif not hasattr(values, '__iter__'): values = [values]"; "self.values = values"; "self.byte_count = (len(self.values) + 7) // 8"]);
+   ("WriteMultipleCoilsResponse", "self, address=None, count=None, **kwargs", ["ModbusResponse.__init__(self, **kwargs)"; "self.address = address"; "self.count = count"]);
+   ("WriteMultipleRegistersRequest", "self, address=None, values=None, **kwargs", ["ModbusRequest.__init__(self, **kwargs)"; "self.address = address"; "if values is None: values = [] elif not hasattr(values, '__iter__'): values = [values]"; "self.values = values"; "self.count = len(self.values)"; "self.byte_count = self.count * 2"]);
+   ("WriteMultipleRegistersResponse", "self, address=None, count=None, **kwargs", ["ModbusResponse.__init__(self, **kwargs)"; "self.address = address"; "self.count = count"]);
+   ("WriteSingleCoilRequest", "self, address=None, value=None, **kwargs", ["ModbusRequest.__init__(self, **kwargs)"; "self.address = address"; "self.value = bool(value)"]);
+   ("WriteSingleCoilResponse", "self, address=None, value=None, **kwargs", ["ModbusResponse.__init__(self, **kwargs)"; "self.address = address"; "self.value = value"]);
+   ("WriteSingleRegisterRequest", "self, address=None, value=None, **kwargs", ["ModbusRequest.__init__(self, **kwargs)"; "self.address = address"; "self.value = value"]);
+   ("WriteSingleRegisterResponse", "self, address=None, value=None, **kwargs", ["ModbusResponse.__init__(self, **kwargs)"; "self.address = address"; "self.value = value"]);
+   ("_OutOfSpaceException", "self, oid", ["self.oid = oid"])].
+
